@@ -285,7 +285,7 @@ def deliveries(run: WorkerRun) -> list[dict]:
         if k == "deliver":
             d = {"id": e["id"], "n": e["n"], "t": e["t"], "params": e["params"], "tried": e["tried"], "max": e["max"],
                  "next": e["next"], "ts": e["ts"], "result": e["result"], "recurring": e["recurring"],
-                 "calls": [], "stores": [], "body": False, "callbacks": [], "after_eager": False, "call_t": None,
+                 "calls": [], "stores": [], "body": False, "callbacks": [], "ran": [], "after_eager": False, "call_t": None,
                  "start_t": None, "end_t": None}
             cur[e["id"]] = d
             out.append(d)
@@ -301,12 +301,17 @@ def deliveries(run: WorkerRun) -> list[dict]:
             cur[e["id"]]["end_t"] = e["t"]
         elif k == "callback" and e["id"] in cur:
             cur[e["id"]]["callbacks"].append(e["cb"])
+            cur[e["id"]]["ran"].append([A("cb"), e["cb"]])
         elif k == "after_eager" and e["id"] in cur:
             cur[e["id"]]["after_eager"] = True
         elif k == "store":
-            mid = e["id"][4:] if e["id"].startswith("res-") else e["id"]
+            # attribute the store to the job that owns this result id (latest delivery wins when shared)
+            owners = [j["id"] for j in run.sc["jobs"] if j.get("result_id", "res-" + j["id"]) == e["id"] and j["id"] in cur]
+            mid = max(owners, key=lambda i: cur[i]["t"]) if owners else None
             if mid in cur:
                 cur[mid]["stores"].append(bool(e["success"]))
+                cur[mid]["ran"].append([A("store"), bool(e["success"])])
+                cur[mid].setdefault("store_events", []).append(e)
     return out
 
 
